@@ -461,6 +461,7 @@ class PipelineCorr(Corr):
         if distinct_keys and n_ord != len(tp) + len(fn):
             return f"{n_ord} ordinary critical ground truths but TP + FN = {len(tp)} + {len(fn)}"
         # per label and Map: #TP <= num_ground_truth = critical ground truths of that label ; scores in [0,1] ; APH <= AP
+        crit_ids = {label_id(_enum(v)) for _, v in (obs["crit"]["targets"] or [])}
         n_crit = {}
         for g in crit_gts:
             n_crit[gf[g]["lid"]] = n_crit.get(gf[g]["lid"], 0) + 1
@@ -472,6 +473,21 @@ class PipelineCorr(Corr):
                     if a["ngt"] != n_crit.get(L, 0) or h["ngt"] != a["ngt"]:
                         return f"{kind} Map {mi}: num_ground_truth[{L}] = {a['ngt']} but {n_crit.get(L, 0)} critical ground truths carry that label"
                     n_tp = a["tp"][-1] if (a["n"] > 0 and a["tp"]) else 0.0
+                    # TP iff the result is in L's bucket, its ground truth carries L, the pair is label-compatible and the
+                    # matching value is STRICTLY better than the threshold (inverted for an FP-labelled ground truth)
+                    table = obs["facts"]["value"] if kind == "center" else obs["plane"]
+                    want_tp = 0
+                    for e, g in surv:
+                        el = obs["est_facts"][e]["lid"]
+                        bucket = el if el in crit_ids else (None if g is None else gf[g]["lid"])
+                        if bucket != L or g is None or gf[g]["lid"] != L:
+                            continue
+                        v = table[e][g]
+                        better = v is not None and Fraction(v) < Fraction(a["thr"])
+                        want_tp += (not better) if gf[g]["is_fp"] else (better and obs["ok"][e][g])
+                    if n_tp != want_tp:
+                        return (f"{kind} Map {mi}: Ap of label {L} (threshold {a['thr']}) counts {n_tp} TP but {want_tp} results of its bucket are "
+                                f"label-compatible with a ground truth of that label and strictly better than the threshold")
                     if n_tp != int(n_tp):
                         return f"{kind} Map {mi}: AP TP count {n_tp} of label {L} is not an integer"
                     if n_tp > a["ngt"]:
